@@ -737,6 +737,34 @@ def Rd.name : Rd → String
 def factVerdict (kind : String) (depth : Nat) : Option String :=
   (factTok kind).map fun p => (verdict depth p.1 p.2).2.name
 
+/-! ### shapes of the detector probe (`Generated/C07.lean`, harness/c07 `ProbeToks`) -/
+
+def probeId : String := "pq"
+
+def probeName : Nat → Name
+  | 0 => ⟨"", "iq"⟩ | 1 => ⟨nsClient, "iq"⟩ | 2 => ⟨nsServer, "iq"⟩ | 3 => ⟨"urn:other", "iq"⟩
+  | _ => ⟨"", "message"⟩
+
+def probeAttrs (idC typC : Nat) : List Attr :=
+  (match typC with
+   | 0 => [attr "type" "result"] | 1 => [attr "type" "error"] | 2 => [attr "type" "get"]
+   | 3 => [attr "type" "set"] | 4 => [] | _ => [attr "type" "foo"]) ++
+  (match idC with
+   | 0 => [attr "id" probeId] | 1 => [attr "id" ("other-" ++ probeId)] | _ => [])
+
+def wrapProbe : Nat → List Tok → List Tok
+  | 0, ts => ts
+  | l + 1, ts => wrapProbe l ([.start ⟨"urn:w", "w" ++ toString l⟩ []] ++ ts ++ [.stop ⟨"urn:w", "w" ++ toString l⟩])
+
+/-- the tokens of one probe shape: an element (name class, id class, type class) wrapped in
+`level` other elements -/
+def probeToks (level nameC idC typC : Nat) : List Tok :=
+  wrapProbe level [.start (probeName nameC) (probeAttrs idC typC), .stop (probeName nameC)]
+
+/-- the model's verdict for a probe shape: does the detector's flag end up set -/
+def probeVerdict (level nameC idC typC : Nat) : Bool :=
+  (WS.init.encAll probeId (probeToks level nameC idC typC)).wrote
+
 /-! ### what the peer sees: top-level elements written -/
 
 /-- split a token list into its top-level elements (text between elements is dropped; an
